@@ -6,6 +6,7 @@ carries: they get their `Spec` from plain writer lemmas.
 namespace Circus.Core
 
 structure LeafX (I : State → Prop) : Prop extends Leaf I where
+  emitRep : ∀ c i a b d, Pres I (emitRep c i a b d)
   setSlot : ∀ v, Pres I (setSlot v)
   pushTop : ∀ t, Pres I (pushTop t)
   finishTop : ∀ t v, Pres I (finishTop t v)
@@ -13,7 +14,7 @@ structure LeafX (I : State → Prop) : Prop extends Leaf I where
   enqueue : ∀ r, Pres I (enqueue r)
   dequeue : Pres I dequeue
 
-attribute [aesop safe apply (rule_sets := [Pres])] LeafX.setSlot LeafX.pushTop LeafX.finishTop LeafX.topAddCb
+attribute [aesop safe apply (rule_sets := [Pres])] LeafX.emitRep LeafX.setSlot LeafX.pushTop LeafX.finishTop LeafX.topAddCb
   LeafX.enqueue LeafX.dequeue
 
 section
@@ -92,6 +93,7 @@ theorem settleStep_pres (X : LeafX I) (he : ∀ n t, Pres I (exec n t)) (hq : Pr
 /-- slot-insensitive invariants: writer lemmas are enough -/
 theorem Spec.ofLeafX (X : LeafX I) : Spec I where
   toLeaf := X.toLeaf
+  emitRep := X.emitRep
   deliverTop := deliverTop_pres X
   newTopNR := fun cbs _ => newTop_pres X cbs
   addDone := fun tid cb _ => addDoneCallback_pres X tid cb
